@@ -1473,6 +1473,46 @@ archive_write_zip_header(struct archive_write *a, struct archive_entry *entry)
 	return (ret2);
 }
 
+/*
+ * Set up the encryption context of the current entry, if it is to be
+ * encrypted and that has not been done yet, and write the encryption
+ * header (traditional: 12 bytes, WinZip AES: salt and verification value).
+ */
+static int
+zip_entry_init_encryption(struct archive_write *a)
+{
+	struct zip *zip = a->format_data;
+	int ret;
+
+	if ((zip->entry_flags & ZIP_ENTRY_FLAG_ENCRYPTED) == 0)
+		return (ARCHIVE_OK);
+
+	switch (zip->entry_encryption) {
+	case ENCRYPTION_TRADITIONAL:
+		/* Initialize traditional PKWARE encryption context. */
+		if (!zip->tctx_valid) {
+			ret = init_traditional_pkware_encryption(a);
+			if (ret != ARCHIVE_OK)
+				return (ret);
+			zip->tctx_valid = 1;
+		}
+		break;
+	case ENCRYPTION_WINZIP_AES128:
+	case ENCRYPTION_WINZIP_AES256:
+		if (!zip->cctx_valid) {
+			ret = init_winzip_aes_encryption(a);
+			if (ret != ARCHIVE_OK)
+				return (ret);
+			zip->cctx_valid = zip->hctx_valid = 1;
+		}
+		break;
+	case ENCRYPTION_NONE:
+	default:
+		break;
+	}
+	return (ARCHIVE_OK);
+}
+
 static ssize_t
 archive_write_zip_data(struct archive_write *a, const void *buff, size_t s)
 {
@@ -1485,31 +1525,9 @@ archive_write_zip_data(struct archive_write *a, const void *buff, size_t s)
 
 	if (s == 0) return 0;
 
-	if (zip->entry_flags & ZIP_ENTRY_FLAG_ENCRYPTED) {
-		switch (zip->entry_encryption) {
-		case ENCRYPTION_TRADITIONAL:
-			/* Initialize traditional PKWARE encryption context. */
-			if (!zip->tctx_valid) {
-				ret = init_traditional_pkware_encryption(a);
-				if (ret != ARCHIVE_OK)
-					return (ret);
-				zip->tctx_valid = 1;
-			}
-			break;
-		case ENCRYPTION_WINZIP_AES128:
-		case ENCRYPTION_WINZIP_AES256:
-			if (!zip->cctx_valid) {
-				ret = init_winzip_aes_encryption(a);
-				if (ret != ARCHIVE_OK)
-					return (ret);
-				zip->cctx_valid = zip->hctx_valid = 1;
-			}
-			break;
-		case ENCRYPTION_NONE:
-		default:
-			break;
-		}
-	}
+	ret = zip_entry_init_encryption(a);
+	if (ret != ARCHIVE_OK)
+		return (ret);
 
 	switch (zip->entry_compression) {
 	case COMPRESSION_STORE:
@@ -1822,10 +1840,17 @@ static int
 archive_write_zip_finish_entry(struct archive_write *a)
 {
 	struct zip *zip = a->format_data;
-	int ret;
+	int ret, ret_enc;
 #if defined(HAVE_BZLIB_H) || (defined(HAVE_ZSTD_H) && HAVE_ZSTD_compressStream) || HAVE_LZMA_H
 	char finishing;
 #endif
+
+	/* An entry that is flagged as encrypted but never received a byte
+	 * of data still needs its encryption header (and, for WinZip AES,
+	 * its authentication code), otherwise it cannot be read back.
+	 * A failure (no passphrase) is reported once the compressor of
+	 * this entry has been shut down below. */
+	ret_enc = zip_entry_init_encryption(a);
 
 	switch (zip->entry_compression) {
 #ifdef HAVE_ZLIB_H
@@ -2126,7 +2151,7 @@ archive_write_zip_finish_entry(struct archive_write *a)
 		(uint32_t)zipmin(zip->entry_offset,
 				 ZIP_4GB_MAX));
 
-	return (ARCHIVE_OK);
+	return (ret_enc);
 }
 
 static int
